@@ -217,3 +217,24 @@ M("c01-err-val-swap", "C01", CVF, "        ls.append(c)\n        els.append(e)",
 M("c01-intrinsic-point", "C01", CFD + "intrinsic/partonic_channel.py", "        return self.x / self.eta", "        return self.x", expect=None)
 B("c01-inplace-factor", "C01", "esf/esf.py", "                val, err = convolution_point * val, convolution_point * err", "                val = val * convolution_point\n                err = err * convolution_point")
 B("c01-rename-quad-args", "C01", CVF, "            quad_args = (*quad_args, *reg_args)\n            quad_ker = quad_ker_reg", "            quad_args = quad_args + reg_args\n            quad_ker = quad_ker_reg")
+
+# ----------------------------------------------------------------------------- C17
+RSF = "esf/result.py"
+OUF = "output.py"
+M("c17-swap-log-index", "C17", RSF, "            lnF = 1.0 if o[3] == 0 else (np.log((1 / xiF) ** 2)) ** o[3]\n            lnR = 1.0 if o[2] == 0 else (np.log((1 / xiR) ** 2)) ** o[2]", "            lnF = 1.0 if o[2] == 0 else (np.log((1 / xiF) ** 2)) ** o[2]\n            lnR = 1.0 if o[3] == 0 else (np.log((1 / xiR) ** 2)) ** o[3]", expect="C17.formula")
+M("c17-no-over-z", "C17", RSF, "lhapdf_like.xfxQ2(pid, z, muF2) / z for z in xgrid", "lhapdf_like.xfxQ2(pid, z, muF2) for z in xgrid", expect="C17.formula")
+M("c17-muf-xir", "C17", RSF, "        muF2 = self.Q2 * xiF**2", "        muF2 = self.Q2 * xiR**2", expect="C17.formula")
+M("c17-as-norm", "C17", RSF, "        a_s = alpha_s(np.sqrt(self.Q2) * xiR) / (4 * np.pi)", "        a_s = alpha_s(np.sqrt(self.Q2) * xiR) / (2 * np.pi)", expect="C17.formula")
+M("c17-as-scale", "C17", RSF, "        a_s = alpha_s(np.sqrt(self.Q2) * xiR) / (4 * np.pi)", "        a_s = alpha_s(np.sqrt(self.Q2) * xiF) / (4 * np.pi)", expect="C17.formula")
+M("c17-log-sign", "C17", RSF, "(np.log((1 / xiF) ** 2)) ** o[3]", "(np.log((xiF) ** 2)) ** o[3]", expect="C17.formula")
+M("c17-err-uses-values", "C17", RSF, '            err += prefactor * np.einsum("aj,aj", e, pdfs, optimize="optimal")', '            err += prefactor * np.einsum("aj,aj", v, pdfs, optimize="optimal")', expect="C17.formula")
+M("c17-missing-flavor-queried", "C17", RSF, "            if not lhapdf_like.hasFlavor(pid):\n                continue\n", "", expect="C17.formula")
+M("c17-xs-drops-y", "C17", RSF, '        res["y"] = self.y\n', "", expect="EXSResult")
+M("c17-args-swapped", "C17", OUF, '            lhapdf_like, alpha_s, alpha_qed, theory["XIR"], theory["XIF"]', '            lhapdf_like, alpha_s, alpha_qed, theory["XIF"], theory["XIR"]', expect="C17.alphas")
+M("c17-ffns-nf", "C17", OUF, 'alpha_s = lambda muR: sc.a_s(muR**2, nf_to=theory["NfFF"]) * 4.0 * np.pi', 'alpha_s = lambda muR: sc.a_s(muR**2, nf_to=theory["nfref"]) * 4.0 * np.pi', expect="C17.alphas")
+M("c17-scheme-substring", "C17", OUF, '        if "FFNS" in fns or "FFN0" in fns:', '        if fns == "FFNS" or fns == "FFN0":', expect="FONLL")
+M("c17-4pi", "C17", OUF, 'alpha_s = lambda muR: sc.a_s(muR**2, nf_to=theory["NfFF"]) * 4.0 * np.pi', 'alpha_s = lambda muR: sc.a_s(muR**2, nf_to=theory["NfFF"]) * 2.0 * np.pi', expect="C17.alphas")
+M("c17-routing-order", "C17", OUF, '                        lhapdf_like, self["pids"], xgrid, alpha_s, alpha_qed, xiR, xiF\n', '                        lhapdf_like, self["pids"], xgrid, alpha_s, alpha_qed, xiF, xiR\n', expect="C17.args")
+M("c17-atlas-origin", "C17", OUF, '            origin=(theory["Qref"] ** 2, theory["nfref"]),', '            origin=(theory["Qref"], theory["nfref"]),', expect="C17.alphas")
+B("c17-power-spelling", "C17", RSF, "            lnF = 1.0 if o[3] == 0 else (np.log((1 / xiF) ** 2)) ** o[3]", "            lnF = (-2.0 * np.log(xiF)) ** o[3]")
+B("c17-prefactor-order", "C17", RSF, "            prefactor = (a_s ** o[0]) * (alph_qed ** o[1]) * lnR * lnF", "            prefactor = lnF * lnR * (alph_qed ** o[1]) * (a_s ** o[0])")
